@@ -289,7 +289,7 @@ func checkC13Read(in c13Input) *fw.Violation {
 			sig = "cli-read-host-crash"
 		}
 		return &fw.Violation{Sub: "cli-read", Signature: sig, What: "read returns a line of input without its newline; input that ends (with or without a final newline) must not crash the host", Input: in,
-			Expected: fmt.Sprintf("exit 0, stdout %q", want), Observed: fmt.Sprintf("exit %d, stdout %q, stderr %q", code, stdout, fw.Trunc(stderr, 300))}
+			Expected: fmt.Sprintf("exit 0, stdout %q", want), Observed: fmt.Sprintf("exit %d, stdout %q, stderr starts %q", code, stdout, strings.SplitN(stderr, "\n", 2)[0])} // (the rest holds addresses and scratch paths)
 	}
 	return nil
 }
